@@ -340,6 +340,36 @@ func TestC18(t *testing.T) {
 	if failed {
 		return
 	}
+	// the empty set has two representations a caller can hold: the zero value (a nil map) and the allocated
+	// one the parser returns for ""; as sets they are the same
+	if envShard == 0 {
+		var zero replication.Mysql56GTIDSet
+		err := guard(func() error {
+			parsed, err := replication.VerifParseGTIDSet("MySQL56", "")
+			if err != nil {
+				return fmt.Errorf("parsing the empty set failed: %v", err)
+			}
+			g := replication.Mysql56GTID{Server: replication.SID(sid), Sequence: 5}
+			one := zero.AddGTID(g)
+			switch {
+			case !zero.Equal(parsed) || !parsed.Equal(zero):
+				return fmt.Errorf("the zero-value empty set and the parsed empty set are not Equal")
+			case !zero.Contains(parsed) || !parsed.Contains(zero):
+				return fmt.Errorf("the zero-value empty set and the parsed empty set do not contain each other")
+			case zero.String() != parsed.String():
+				return fmt.Errorf("the zero-value empty set prints %q, the parsed one %q", zero.String(), parsed.String())
+			case zero.ContainsGTID(g) || !one.ContainsGTID(g) || !one.Equal(parsed.AddGTID(g)) || len(zero) != 0:
+				return fmt.Errorf("AddGTID on the zero-value empty set: result %q, the set itself now %q", one.String(), zero.String())
+			}
+			return nil
+		})
+		rec.Case(true, "zero-value-empty-set", "zero-value-empty-set")
+		if err != nil {
+			rec.Violation("c18zero", "zero-value empty set", "", err)
+			t.Errorf("C18 violation: %v", err)
+			return
+		}
+	}
 
 	rapidCheck(t, func(rt *rapid.T) {
 		c := &GTIDSeqCase{Start: map[int][][2]int64{}}
